@@ -56,7 +56,8 @@ RECORD_ONLY = {"credential-type"}
 
 
 def none_with_statement(s, r):
-    s.k["none_stmt"] = r.choice([{"sig": b"x"}, {"alg": -7}, {"x5c": [b"a"]}, {"ver": "2.0"}, {"response": b"r"}, {"certInfo": b"c"}, {"pubArea": b"p"}])
+    s.k["none_stmt"] = r.choice([{"sig": b"x"}, {"alg": -7}, {"x5c": [b"a"]}, {"ver": "2.0"}, {"response": b"r"}, {"certInfo": b"c"}, {"pubArea": b"p"},
+                                 {"sig": b""}, {"alg": 0}, {"x5c": []}, {"ver": ""}, {"response": b""}, {"certInfo": b""}, {"pubArea": b"", "sig": b""}, {"alg": False}])
 
 
 # ---------------- per-format rules ----------------
@@ -214,9 +215,12 @@ FORMAT_FAULTS = {
         "challenge-other": set_k(ak_challenge=hashlib.sha256(b"other").digest()), "allApplications-software": set_k(ak_sw_all=True),
         "allApplications-tee": set_k(ak_tee_all=True), "origin-imported": set_k(ak_origin=2), "origin-absent": set_k(ak_origin=None),
         "purpose-verify": set_k(ak_purpose=(3,)), "purpose-sign-and-verify": set_k(ak_purpose=(2, 3)), "purpose-absent": set_k(ak_purpose=None),
+        "origin-only-software-enforced": set_k(ak_origin=None, ak_sw_origin=0), "purpose-only-software-enforced": set_k(ak_purpose=None, ak_sw_purpose=(2,)),
+        "origin-and-purpose-only-software-enforced": set_k(ak_origin=None, ak_sw_origin=0, ak_purpose=None, ak_sw_purpose=(2,)),
         "extension-absent": set_k(ak_no_ext=True), "sig-missing": stmt_drop("sig"), "alg-missing": stmt_drop("alg"), "x5c-missing": stmt_drop("x5c"),
     },
     "android-safetynet": {
+        "alg-es256-ec-leaf-valid-signature": set_k(sn_ec_leaf=True, sn_alg="ES256"),
         "nonce-other-authdata": signed_other_ad, "nonce-other-clientdata": signed_other_cdh, "nonce-garbage": set_k(sn_nonce="AAAA"),
         "basic-integrity-false": set_k(sn_basic=False), "alg-es256": set_k(sn_alg="ES256"), "alg-ps256-really": set_k(sn_pss=True),
         "sha512-signature": set_k(sn_hash=hashes.SHA512), "leaf-cn-other": set_k(sn_cn="attest.android.com.evil.example"),
@@ -248,7 +252,13 @@ def ch_self_signed_leaf(s, r):
     # leaf claims the root's name as issuer but is signed by its own (attestation) key
     s.k["leaf_signer"] = regsim.ec_key("self_signer")
 
+def ch_nobc_root_impostor(s, r): s.k["pki_kw"] = dict(root_bc=False); s.roots_mode = "impostor-nobc"
+def ch_nobc_root_bad_sig(s, r): s.k["pki_kw"] = dict(root_bc=False); s.k["leaf_signer"] = regsim.ec_key("unrelated_signer")
+def ch_nobc_root_expired_leaf(s, r): s.k["pki_kw"] = dict(root_bc=False); s.k["leaf_nb"], s.k["leaf_na"] = T0 - 400 * DAY, T0 - 1
+
 CHAIN_FAULTS = {
+    "legacy-root-without-basic-constraints:corrupted-signature": ch_nobc_root_bad_sig,
+    "legacy-root-without-basic-constraints:expired-leaf": ch_nobc_root_expired_leaf,
     "impostor-root-same-name": ch_impostor_root, "expired-leaf": ch_expired_leaf, "not-yet-valid-leaf": ch_future_leaf,
     "expired-intermediate": ch_expired_inter, "not-yet-valid-intermediate": ch_future_inter, "expired-root": ch_expired_root,
     "not-yet-valid-root": ch_future_root, "corrupted-signature": ch_bad_signature, "missing-intermediate": ch_missing_inter,
